@@ -479,8 +479,19 @@ func (g *G) XRBlock() V {
 		}
 		return V{"bt": "dlrr", "reports": rs}
 	case 5:
-		return V{"bt": "ss", "l": g.Bool(), "d": g.Bool(), "j": g.Bool(), "toh": g.R.Intn(4), "ssrc": g.U32(), "bs": g.U16(), "es": g.U16(),
-			"lost": g.U32(), "dup": g.U32(), "minj": g.U32(), "maxj": g.U32(), "meanj": g.U32(), "devj": g.U32(),
+		sbs, ses, slost, sdup := g.U16(), g.U16(), g.U32(), g.U32()
+		sl, sd := g.Bool(), g.Bool()
+		if g.Bool() {
+			// counters a real receiver would report: an interval, losses and duplicates related to it
+			span := g.Pick(1, 2, 100, 1000, g.Int(1, 2000))
+			ses = (sbs + span) % 65536
+			dup := g.Pick(0, 0, 1, 7, span)
+			lost := g.Pick(0, 1, span, span+dup, span-1, span+dup-1)
+			slost, sdup = L{0, 0, lost >> 8 & 255, lost & 255}, L{0, 0, dup >> 8 & 255, dup & 255}
+			sl, sd = g.Pick(1, 1, 0) == 1, g.Pick(1, 1, 0) == 1
+		}
+		return V{"bt": "ss", "l": sl, "d": sd, "j": g.Bool(), "toh": g.R.Intn(4), "ssrc": g.U32(), "bs": sbs, "es": ses,
+			"lost": slost, "dup": sdup, "minj": g.U32(), "maxj": g.U32(), "meanj": g.U32(), "devj": g.U32(),
 			"mint": g.U8(), "maxt": g.U8(), "meant": g.U8(), "devt": g.U8()}
 	case 6:
 		return V{"bt": "voip", "ssrc": g.U32(), "lr": g.U8(), "dr": g.U8(), "bd": g.U8(), "gd": g.U8(), "bdur": g.U16(), "gdur": g.U16(),
